@@ -17,9 +17,10 @@ Executed as a differential: the same history is built twice with the real API, o
 statements (reference) and once with them; the probes are every variable of the history (operands, copies' originals,
 siblings, second composites) whose object graph is disjoint from the footprints, on inputs sampled from the live
 objects with leading / interior whitespace and comment text at the start and at the token boundaries.
-The footprint is computed on the live objects at the moment of the call (object identity), so anything the real code
-shares BY DESIGN (the contained expression of a copied Group/Opt/Forward/...; see candidate finding
-enhance_copy_shares_child) is outside the statement rather than an alarm.
+The footprints and "contains" are computed from the HISTORY by the documented sharing rules (class Sharing: composites
+refer to their operands; copy() of an And/MatchFirst/Or/Each copies the children, every other copy() is shallow and
+shares the contained expressions - registered finding enhance_copy_shares_child), NOT from the live objects: a copy()
+that wrongly keeps a child of the original must not hide the leak it causes.
 """
 from __future__ import annotations
 
@@ -272,9 +273,29 @@ def gen_history(seed):
         return v
 
     involved = []
+    cm2 = None
     for _ in range(rng.choice([1, 1, 2, 3])):
         o = operand()
         involved.append(o)
+        # vary the attributes a copying / in-place path could (wrongly) make its sharing decisions on: the operand has a
+        # parse action, a custom name, its own ignorable, has already been used (streamlined), or is a named copy
+        r = rng.random()
+        if r < 0.12:
+            sts.append(["_", "action", o, rng.choice([["app", "Z"], ["none"], ["dup"]])])
+        elif r < 0.18:
+            sts.append(["_", "set_name", o, "NO"])
+        elif r < 0.26:
+            if cm2 is None:
+                cm2 = fresh("c")
+                sts.append([cm2, "Literal", "%"])
+            sts.append(["_", "ignore", o, cm2])
+        elif r < 0.36:
+            sts.append(["_", "use", o])
+        elif r < 0.44:
+            o2 = fresh()
+            sts.append([o2, "name", o, "k1"])
+            involved.append(o2)
+            o = o2
         how = rng.choice(["copy", "copy", "composite", "composite", "composite_of_copy", "copy_of_composite", "nested"])
         if how == "copy":
             x = copy_of(o)
@@ -330,6 +351,64 @@ def footprint(pp, op, x):
     if op == "ignore":
         return reach(pp, [x])
     return {id(x): x}
+
+
+# ---------------------------------------------------------------------------------------------------
+# DOCUMENTED sharing, computed from the history itself (not from the live objects: a copy() that wrongly shares a
+# child with its original must not hide the leak it causes)
+# ---------------------------------------------------------------------------------------------------
+_DEEP_OPS = ("+", "-", "|", "^", "&", "And", "MatchFirst", "Or", "Each")       # ParseExpression: copy() copies children
+_COPY_OPS = ("copy", "call", "name", "set_results_name", "leave_whitespace", "set_whitespace_chars")
+
+
+class Sharing:
+    """shared(v): the variables whose objects the expression `v` refers to (itself included);
+    shared_by_copy(v): the variables a copy of `v` still refers to.  ParseExpression.copy copies its children
+    (recursively), every other copy() is shallow (the copy of a Group / Opt / Forward / e[...] / ... shares the contained
+    expressions).  Everything that is not a plain And/MatchFirst/Or/Each construction is treated as shallow: a
+    superset of the real sharing is only ever a lost probe."""
+
+    def __init__(self, prog):
+        self.defs, self.body = {}, {}
+        for st in prog:
+            if st[0] not in ("_", MUT):
+                self.defs[st[0]] = st
+            elif st[1] == "<<=":
+                self.body.setdefault(st[2], []).append(st[3])
+        # least fixed point of the (monotone) equations; Forwards make the variable graph cyclic
+        S = {v: {v} for v in self.defs}
+        C = {v: set() for v in self.defs}
+        changed = True
+        while changed:
+            changed = False
+            for v, st in self.defs.items():
+                op = st[1]
+                kids = [r for r in _refs(st) if r in self.defs] + self.body.get(v, [])
+                if op in _COPY_OPS:
+                    src = st[2]
+                    ns = {v} | C.get(src, {src})
+                    nc = set(C.get(src, {src}))
+                elif op in _LEAF_OPS and op != "Forward":
+                    ns, nc = {v}, set()
+                elif op in _DEEP_OPS:
+                    ns = {v}.union(*[S[k] for k in kids])
+                    nc = set().union(*[C[k] for k in kids])
+                else:
+                    ns = {v}.union(*[S[k] for k in kids])
+                    nc = ({v} if op == "Forward" else set()).union(*[S[k] for k in kids])
+                if ns != S[v] or nc != C[v]:
+                    S[v], C[v], changed = ns, nc, True
+        self._s, self._c = S, C
+
+    def shared(self, v):
+        return self._s.get(v, {v})
+
+    def shared_by_copy(self, v):
+        return self._c.get(v, {v})
+
+    def footprint(self, op, x):
+        """variables an in-place operation on `x` is documented to act on"""
+        return self.shared(x) if op == "ignore" else {x}
 
 
 def run_history(pp, prog, with_mut, on_mut=None, on_copy=None):
@@ -537,25 +616,21 @@ def hist_job(job):
         return out
     members = [st[0] for st in prog if st[0] not in ("_", MUT)]
     only = job.get("only")
-    # an expression BUILT FROM a footprint object after the operation (a copy of it, a composite around it) legitimately
-    # carries the change: `derived` = variables defined from a variable that was inside a footprint at that moment
-    try:
-        reach_of = {v: set(reach(pp, [tst.env[v]])) for v in members}
-    except RecursionError:
-        out["skip"] = "recursion"
-        return out
-    derived, sofar, k = set(), set(), 0
+    # the probes: every variable that (by the DOCUMENTED sharing) refers to nothing inside a footprint, and that was not
+    # built from a footprint variable after the operation (a copy of / a composite around a changed expression
+    # legitimately carries the change)
+    sh = Sharing(prog)
+    fvars, derived = set(), set()
     for st in prog:
         if st[0] == MUT:
-            sofar |= foots[k]
-            k += 1
-        elif st[0] != "_" and sofar:
-            if any((r in derived) or (r in reach_of and reach_of[r] & sofar) for r in _refs(st)):
+            fvars |= sh.footprint(st[1], st[2])
+        elif st[0] != "_" and fvars:
+            if any((r in derived) or (sh.shared(r) & fvars) for r in _refs(st) if r in sh.defs):
                 derived.add(st[0])
     for v in members:
         if only and v != only[0]:
             continue
-        if v in derived or (reach_of[v] & set(foot)):
+        if v in derived or (sh.shared(v) & fvars):
             out["excluded"] += 1
             continue
         if only:
